@@ -391,6 +391,20 @@ func execBadDoc(c *Sx, env *execEnv) (*Sx, []Violation) {
 		}
 	}
 	env.nontr[fmt.Sprint(args[2:])+res.String()] = true
+	// the analyzer is an object a caller may use again: what the bad documents of this directory left in it must not decide
+	// the analysis of the next one (the clean directory, analysed again with the same analyzer)
+	if base.ok {
+		var c2 []connlist.Peer2PeerConnection
+		var p2 []connlist.Peer
+		var e2 error
+		if p := guarded("list-again", func() { c2, p2, e2 = ca.ConnlistFromDirPath(clean) }); p != "" {
+			rep("panic", p)
+		} else if e2 != nil {
+			rep("analyzer-reuse-keeps-earlier-errors", "the clean directory analysed with an analyzer that has just read the bad one fails: "+e2.Error())
+		} else if s := listResultSx(c2, p2).String(); !strings.HasPrefix(base.rawSx.String(), s[:len(s)-1]) {
+			rep("analyzer-reuse-keeps-earlier-errors", "the clean directory analysed with an analyzer that has just read the bad one gives another result: "+s[:min(200, len(s))])
+		}
+	}
 	return out, viols
 }
 
